@@ -58,10 +58,10 @@ def enqueue (s : St) (a : Act) : St × List Cmd :=
   | .revoke sys trigs => (s, [.revoke sys trigs])
   | .run sys => (s, [.run sys])
   | .sysEvent sys ty pid =>
-    let (d, s) := s.fresh
+    let (d, s) := (s.emit (.send pid)).fresh
     (s, [.spawnData d { kind := .sys, ty := ty, pid := pid, target := 0, cnt := 0, taken := false }, .sysEvent sys d])
-  | .broadcast ty pid => (s, [.broadcast ty pid])
-  | .entityEvent e ty pid => (s, [.entityEvent e ty pid])
+  | .broadcast ty pid => (s.emit (.send pid), [.broadcast ty pid])
+  | .entityEvent e ty pid => (s.emit (.send pid), [.entityEvent e ty pid])
   | .resMut ty => (s, [.resMut ty])
   | .resSet ty v neq =>
     if neq then
@@ -105,17 +105,17 @@ def applyCmd (s : St) (c : Cmd) : St :=
   | .marker m => s.emit (.marker m)
   | .run sys => s.push [.runnerStart sys .plain]
   | .sysEvent sys d =>
-    ({ s with trkSys := { s.trkSys with prepared := s.trkSys.prepared ++ [(sys, d)] } }).push [.runnerStart sys .sysEv]
+    ({ s with trkSys := { s.trkSys with prepared := s.trkSys.prepared ++ [(sys, d)] } }).push [.runnerStart sys (.sysEv d)]
   | .reactRes sys => s.push [.runnerStart sys .plain]
   | .reactEnt src rt sys =>
-    ({ s with trkEnt := { s.trkEnt with prepared := s.trkEnt.prepared ++ [(sys, src, rt)] } }).push [.runnerStart sys .entReact]
+    ({ s with trkEnt := { s.trkEnt with prepared := s.trkEnt.prepared ++ [(sys, src, rt)] } }).push [.runnerStart sys (.entReact src rt)]
   | .reactDsp src sys h =>
-    ({ s with trkDsp := { s.trkDsp with prepared := s.trkDsp.prepared ++ [(sys, src, h)] } }).push [.runnerStart sys .dspReact]
+    ({ s with trkDsp := { s.trkDsp with prepared := s.trkDsp.prepared ++ [(sys, src, h)] } }).push [.runnerStart sys (.dspReact src)]
   | .reactEv target d sys =>
-    ({ s with trkEnt := { s.trkEnt with prepared := s.trkEnt.prepared ++ [(sys, target, (⟨.ev, 1000⟩ : RType))] },
-              trkEvt := { s.trkEvt with prepared := s.trkEvt.prepared ++ [(sys, d)] } }).push [.runnerStart sys .entEv]
+    ({ s with trkEnt := { s.trkEnt with prepared := s.trkEnt.prepared ++ [(sys, target, evUnit)] },
+              trkEvt := { s.trkEvt with prepared := s.trkEvt.prepared ++ [(sys, d)] } }).push [.runnerStart sys (.entEv target d)]
   | .reactBc d sys =>
-    ({ s with trkEvt := { s.trkEvt with prepared := s.trkEvt.prepared ++ [(sys, d)] } }).push [.runnerStart sys .bcEv]
+    ({ s with trkEvt := { s.trkEvt with prepared := s.trkEvt.prepared ++ [(sys, d)] } }).push [.runnerStart sys (.bcEv d)]
   -- `commands.spawn(SystemCommandStorage)` targets a freshly reserved entity, which never has the component yet
   | .spawnStorage sys =>
     if s.alive sys ∧ s.storage sys = none then { s with storage := upd s.storage sys (some true) } else s
@@ -220,10 +220,16 @@ def doOnceTail (s : St) (sys : Nat) : St :=
 def doRunnerStart (s : St) (sys : Nat) (k : Kind) : St :=
   (s.emit (.applied sys)).push [.gc, .poll, .runnerLookup sys k s.counter]
 
+/-- `setup`, then the ghost events: whether the claim was exact and what the readers should return. -/
+def preBody (s : St) (sys : Nat) (k : Kind) : St :=
+  let s := (setupK s k sys).emit (.enter sys)
+  let s := if claimedOwn s k then s else s.emit (.misclaim sys)
+  s.emit (.expect sys (expectObs s k (ewrOf s sys)))
+
 /-- Prologue of a body: `setup`, then the first statement of the scripted system samples every reader; the run is
     counted (`Local`), taken system-event payloads are dropped by the body. -/
 def startBody (s : St) (sys : Nat) (k : Kind) : St :=
-  let s := (setupK s k sys).emit (.enter sys)
+  let s := preBody s sys k
   let inf := s.info sys
   let r := observe s (ewrOf s sys)
   let s : St := { r.2 with info := upd r.2.info sys { inf with onceTaken := inf.once.isSome || inf.onceTaken, nruns := inf.nruns + 1 } }
